@@ -209,6 +209,7 @@ fn build_cases(tape: &[u8], which: Which, n_inputs_scale: usize) -> Vec<Result<G
     let mut t = Tape::new(tape);
     let spec = match which {
         Which::C12 => gen::gen_prec(&mut t),
+        Which::C25 if t.chance(90) => gen::gen_prec(&mut t),
         Which::C16 => gen::gen_recovery(&mut t),
         _ => gen::gen_full(&mut t, &opts),
     };
@@ -1358,7 +1359,7 @@ fn evaluate_cases(
                     if batch.accepted[ia] != batch.accepted[ib] {
                         let msg = |i: usize| batch.gen[i].stdout.lines().find(|l| l.contains("error") || l.contains("detected")).unwrap_or("").to_string();
                         let why = if batch.accepted[ia] { msg(ib) } else { msg(ia) };
-                        let why_n = crate::run::normalise_msg(why.splitn(4, ':').last().unwrap_or(&why));
+                        let why_n = crate::run::normalise_msg(why.split("error: ").last().unwrap_or(&why));
                         fails[ga].push(Fail {
                             sig: format!("C25/verdict-changes-with-renaming/{}", why_n),
                             what: format!("LALRPOP {} the grammar but {} its renaming ({}): {}", if batch.accepted[ia] { "accepts" } else { "rejects" }, if batch.accepted[ib] { "accepts" } else { "rejects" }, cb.pair_note, why),
@@ -1685,7 +1686,7 @@ pub fn run(ctx: Ctx, replay: Option<PathBuf>, which: Which) -> i32 {
                     Some(vec![(algo, asc)])
                 }
             };
-            let (small, best) = shrink(&ctx, which, &tp, &sig, ctx.tier.pick(8, 16), focus);
+            let (small, best) = shrink(&ctx, which, &tp, &sig, ctx.tier.pick(4, 12), focus);
             let f = best.unwrap_or(f);
             let mut rp = f.replay.clone();
             rp["shrunk_from_tape_len"] = json!(tp.len());
